@@ -84,7 +84,10 @@ func VerifH_C19_httpLines() {
 	batch := pipeline.NewPreparedBatch(events)
 	pipeline.VerifBatchMarkIterable(batch, iterable)
 	var wd pipeline.WorkerData
-	err := p.out(&wd, batch)
+	var err error
+	// several workers run out() on the one plugin object at once: whatever it writes must be per worker (WorkerData)
+	sharedWrites := vf.SharedWrites(p, func() { err = p.out(&wd, batch) })
+	vf.Assert(sharedWrites == 0, "out-does-not-write-to-the-plugin-shared-by-the-workers")
 	vf.Assert(err == nil, "send-succeeds")
 	if !iterable && len(verifBodies) == 0 {
 		return // nothing deliverable: no request is needed (split mode sends none)
